@@ -24,3 +24,28 @@ def shim(module, **names):
                 module.__dict__.pop(k, None)
             else:
                 module.__dict__[k] = v
+
+
+def fix_bool(b):
+    """a concrete Python bool equal to the (possibly symbolic) `b`: the engine forks here, once per value"""
+    return True if b else False
+
+
+def fix_int(v, lo, hi):
+    """a concrete Python int equal to the (possibly symbolic) `v` in lo..hi: a comparison chain, the engine forks once per value"""
+    out = lo
+    for k in range(lo + 1, hi + 1):
+        if v == k:
+            out = k
+    return out
+
+
+def untraced(thunk):
+    """run `thunk` outside the tracer.  ONLY for bodies whose arguments were all made concrete with fix_bool/fix_int: nothing symbolic flows in, so tracing
+    would only slow the real code down (x10-x50); the path condition that selected the arguments is what the solver enumerates and exhausts."""
+    if REPLAYING():
+        return thunk()
+    from crosshair.tracers import NoTracing
+
+    with NoTracing():
+        return thunk()
